@@ -176,7 +176,8 @@ Section Stream.
     psend EvEndBody ;;
     set_state HClosed ;;
     s <- gets ;;
-    (if hs_has_response s then emit (OLogAccess (Some (hs_status s))) else raise EAttribute) ;;
+    (if hs_closed s then ret tt     (* logged when the stream was told it is closed *)
+     else if hs_has_response s then emit (OLogAccess (Some (hs_status s))) else raise EAttribute) ;;
     psend EvStreamClosed.
 
   Definition make_scope (hs : list header) (version method raw_path : bytes) : result (E:=exn) scope :=
